@@ -483,8 +483,11 @@ class Types:
                 ca = self.prog.classes.get(a[1])
                 if ca is not None and tg[1] in ca.mro:
                     return True
-        # all targets differ from a: decide False only for concrete known types
-        if a in (INT, FLOAT, STR, BOOL, TIMEDELTA, NONE) or a[0] in ("inst", "tup", "seq", "dict"):
+        # all targets differ from a: decide False only for concrete scalar types and package classes; a value annotated with
+        # an abstract container type (Sequence / Iterable / dict / tuple) may be a list, tuple, ... at run time
+        if a[0] in ("tup", "seq", "dict"):
+            return None
+        if a in (INT, FLOAT, STR, BOOL, TIMEDELTA, NONE) or a[0] in ("inst",):
             if a[0] == "inst":
                 ca = self.prog.classes.get(a[1])
                 if ca is None:
